@@ -6,7 +6,10 @@ Driver "history" - case:
    "pool":  [relay record, ...]          # vlib/consensusref.py format; identities distinct
    "first": [pool index, ...]            # members of document 1 (may be empty: Tor without a consensus yet)
    "docs":  [[op, ...], ...]             # one op list per later document, applied to the previous document
-   "chunk": null | n}                    # bytes per delivery to the protocol (null = one chunk per reply/event)
+   "chunk": null | n,                    # bytes per delivery to the protocol (null = one chunk per reply/event)
+   "boot":  [slot, ...]}                 # optional: documents 2..1+len(boot) arrive as NEWCONSENSUS events *during*
+                                         # the TorState bootstrap (slots: vlib/statebootstrap.py); the view is first
+                                         # judged when the bootstrap has completed, against the latest of them
   ops (k, j index the relays of the document being edited, modulo its length):
    ["join", k]  k-th pool relay not currently listed joins (with its pool attributes)
    ["leave", k] (the last relay may leave: the next document is then empty)   ["clear"] every relay leaves
@@ -36,7 +39,7 @@ from vlib import consensusref as cr
 from vlib import wire
 from vlib.harness import LogCapture
 from vlib.runner import HarnessError, Result, VERIF
-from vlib.statebootstrap import bootstrapped_state
+from vlib.statebootstrap import BOOTSTRAP_WINDOW_SLOTS, bootstrapped_state
 
 PROPERTY = "C16"
 LEVEL = "exploration"
@@ -47,11 +50,15 @@ RULE = ("Hypothesis-generated consensus histories: a pool of 1..8 relays (random
         "document and back, flag toggles, IPv6 set/cleared, "
         "bandwidth changed or w line dropped, nickname changed or made to collide, address/descriptor "
         "change); document 1 is served as the GETINFO ns/all data block of a real TorState bootstrap, "
-        "the others as 650+NEWCONSENSUS events, optionally delivered in small chunks; after every document "
+        "the others as 650+NEWCONSENSUS events, optionally delivered in small chunks; in a quarter of the histories "
+        "the first one or two replacement documents arrive while TorState is still bootstrapping (behind Tor's "
+        "acknowledgement of the SETEVENTS that subscribes to NEWCONSENSUS, in front of the last bootstrap "
+        "answer) and the view is judged once the bootstrap has completed; after every document "
         "the complete relay view (routers, routers_by_hash, routers_by_name, all_routers, guards, "
         "authorities, per-relay attributes, lookups, object identity) is compared with an independent "
         "document model. Non-trivial = >=2 documents and either some relay listed in two consecutive documents "
-        "that differ, or a non-empty document followed by an empty one; distinct = distinct canonical JSON of the case. The 'codec' driver "
+        "that differ, or a non-empty document followed by an empty one, or a replacement document inside the "
+        "bootstrap window that differs from the initial listing; distinct = distinct canonical JSON of the case. The 'codec' driver "
         "checks hexIdFromHash/hashFromHexId on batches of random and boundary identities (non-trivial = "
         "non-empty batch).")
 ASSUMPTIONS = [
@@ -78,7 +85,11 @@ ASSUMPTIONS = [
     "state)",
     "identity lookups use the forms Tor emits: '$HEX', '$HEX~nick', '$HEX=nick' with upper-case hex; identities that "
     "are not in the latest document are never looked up (router_from_id documents that it creates a placeholder)",
-    "object identity is required only for relays listed in two consecutive documents",
+    "object identity is required only for relays listed in two consecutive documents that could both be observed "
+    "(not across documents superseded inside the bootstrap window)",
+    "Tor sends an event only after it acknowledged the SETEVENTS that subscribes to it and never inside another "
+    "reply, so a NEWCONSENSUS during the bootstrap is placed between two replies, behind that acknowledgement; the "
+    "view is observed only after post_bootstrap fired, against the latest document delivered until then",
     "the identity codec is checked on 20-byte identities: 27-character unpadded base64 <-> '$' + 40 upper-case hex digits",
 ]
 
@@ -222,14 +233,29 @@ def make_op(kind, k, x):
     return [kind, k, make_digest(b"", x), DATES[x % len(DATES)]]
 
 
-def make_case(relays, first, docs, chunk):
+def make_boot(x, ndocs):
+    """Slots (vlib.statebootstrap) of the replacement documents that arrive while TorState is still
+    bootstrapping; a quarter of the histories have one or two."""
+    if x & 3 or not ndocs:
+        return []
+    x >>= 2
+    slots = [x % 3]
+    if (x >> 2) & 1 and ndocs >= 2:
+        slots.append((x >> 3) % 3)
+    return sorted(slots)
+
+
+def make_case(relays, first, docs, chunk, boot=()):
     pool = []
     seen = set()
     for r in relays:
         if r["id"] not in seen:
             seen.add(r["id"])
             pool.append(r)
-    return {"v": CASE_VERSION, "pool": pool, "first": first, "docs": docs, "chunk": chunk}
+    case = {"v": CASE_VERSION, "pool": pool, "first": first, "docs": docs, "chunk": chunk}
+    if boot:
+        case["boot"] = list(boot)
+    return case
 
 
 # --------------------------------------------------------------------------- strategies
@@ -250,7 +276,8 @@ def histories():
     first = st.integers(0, 255).map(lambda m: [i for i in range(8) if (m >> i) & 1])
     docs = st.lists(st.lists(_ops(), max_size=6), max_size=5)
     chunk = st.integers(0, 15).map(lambda n: {12: 1, 13: 7, 14: 64, 15: 1000}.get(n))
-    return st.builds(make_case, pool, first, docs, chunk)
+    return st.builds(lambda p, f, d, c, b: make_case(p, f, d, c, make_boot(b, len(d))),
+                     pool, first, docs, chunk, st.integers(0, 255))
 
 
 def id_batches():
@@ -580,12 +607,28 @@ def drive_history(case):
     docs, rendered = build_documents(case, res)
     views = [cr.expected_view(d) for d in docs]
     chunk = case.get("chunk")
-    state, pipe, srv, watch = bootstrapped_state(ns_all=rendered[0], chunk=chunk, require=False)
+    # documents 2..1+len(boot) arrive as NEWCONSENSUS events while TorState is still bootstrapping (behind the
+    # acknowledgement of the SETEVENTS that subscribes, in front of the last bootstrap answer); the view is first
+    # judged once the bootstrap has completed, against the latest of them
+    boot = [int(b) % BOOTSTRAP_WINDOW_SLOTS for b in case.get("boot", [])][:len(docs) - 1]
+    boot.sort()
+    during = [(slot, wire.encode_event({"form": "data", "name": "NEWCONSENSUS", "first": "", "more": rendered[i + 1]}))
+              for i, slot in enumerate(boot)]
+    with LogCapture() as bootcap:
+        state, pipe, srv, watch = bootstrapped_state(ns_all=rendered[0], chunk=chunk, require=False, during=during)
+    n0 = 1 + len(boot)
     prev_objs = {}
     earlier = {}
     for n, want in enumerate(views, 1):
+        if n < n0:
+            # superseded before it could be observed
+            for fp, att in want.items():
+                earlier.setdefault(fp, []).append(att)
+            continue
         logged = []
-        if n > 1:
+        if n == n0 and boot:
+            logged = bootcap.errors
+        if n > n0:
             with LogCapture() as cap:
                 pipe.inject(wire.encode_event({"form": "data", "name": "NEWCONSENSUS", "first": "",
                                                "more": rendered[n - 1]}))
@@ -595,11 +638,23 @@ def drive_history(case):
             res.bad(_rejection_tag(docs[n - 1]), "document %d: %s: %s escaped from dataReceived; lines %r" % (
                 n, type(e).__name__, e, rendered[n - 1]))
             break
-        if n == 1 and not watch.succeeded:
+        if n == n0 and not watch.succeeded:
             res.bad(_rejection_tag(docs[0]), "bootstrap with document 1 ended %r; lines %r" % (
                 watch.outcome(), rendered[0]))
             break
         objs = compare_view(res, state, want, n, prev_objs, earlier)
+        if not res.ok and n == n0 and boot and not logged:
+            # name the root cause when the view is exactly that of an earlier document of the bootstrap window
+            tag0, detail0 = res.problems[0]
+            got = set(state.routers_by_hash.keys())
+            for m in range(n0 - 1, 0, -1):
+                if got == set(views[m - 1]) and got != set(want):
+                    res.problems[:] = [("newconsensus-during-bootstrap-dropped",
+                                        "document %d arrived as NEWCONSENSUS in bootstrap slot(s) %r (after the SETEVENTS "
+                                        "acknowledgement, before the last bootstrap answer) but after the bootstrap the "
+                                        "relay set is still that of document %d; first difference: %s: %s" % (
+                                            n, boot, m, tag0, detail0[:400]))]
+                    break
         if not res.ok and logged:
             # the protocol logs (and survives) an exception raised by an event listener: the view is wrong
             # because the document was thrown away half-way, which is the root cause to name.  The log only
@@ -649,6 +704,14 @@ def _classify(res, case, docs, views):
                 res.label("relays-return-after-empty-document")
     if case.get("chunk"):
         res.label("chunked-delivery")
+    nboot = min(len(case.get("boot", [])), len(docs) - 1)
+    if nboot:
+        res.label("newconsensus-during-bootstrap")
+        if nboot >= 2:
+            res.label("two-newconsensus-during-bootstrap")
+        if docs[nboot] != docs[0]:
+            nontrivial = True
+            res.label("bootstrap-window-document-differs-from-listing")
     seen_before = set()
     for i, v in enumerate(views):
         if any(not a["name_unique"] for a in v.values()):
@@ -893,6 +956,10 @@ MUTANTS = [
     ("p-line-needs-w-line", "txtorcon/_microdesc_parser.py",
      "        waiting_w.add_transition(Transition(waiting_r, lambda x: x.startswith('p '), self._router_policy))"
      "  # ... also when a \"p\" line follows\n", ""),
+    ("newconsensus-during-bootstrap-dropped", "txtorcon/torstate.py",
+     "        # XXX why are we ever getting this with 0 data?\n        if len(data):",
+     "        if self.protocol.post_bootstrap.called and not self.post_bootstrap.called:\n            return\n"
+     "        # XXX why are we ever getting this with 0 data?\n        if len(data):"),
     ("p-line-not-optional", "txtorcon/_microdesc_parser.py",
      "        waiting_p.add_transition(Transition(waiting_s, lambda x: x.startswith('r '), self._router_begin))"
      "  # \"p\" lines are optional\n", ""),
